@@ -93,11 +93,12 @@ func runC19Expr(c *Ctx) {
 	if sub == nil {
 		c.anchorMissing("isYAMLValueSubset")
 	} else {
+		ci, fi := subsetParamRoles(sub)
 		// (a) the function starts with the test of the filter side: type assertion to *RawYAMLString, ContainsExpression, return true
 		okEntry := false
 		if ifi, ok := sub.Blocks[0].Instrs[len(sub.Blocks[0].Instrs)-1].(*ssa.If); ok {
 			if ex, ok := ifi.Cond.(*ssa.Extract); ok {
-				if ta, ok := ex.Tuple.(*ssa.TypeAssert); ok && ta.X == sub.Params[1] && strings.HasSuffix(typeStr(ta.AssertedType), "RawYAMLString") {
+				if ta, ok := ex.Tuple.(*ssa.TypeAssert); ok && ta.X == sub.Params[fi] && strings.HasSuffix(typeStr(ta.AssertedType), "RawYAMLString") {
 					t := sub.Blocks[0].Succs[0]
 					for _, in := range t.Instrs {
 						if call, ok := in.(*ssa.Call); ok {
@@ -147,7 +148,7 @@ func runC19Expr(c *Ctx) {
 			for ifi, outcome := range conds {
 				switch cnd := ifi.Cond.(type) {
 				case *ssa.Extract:
-					if ta, ok := cnd.Tuple.(*ssa.TypeAssert); ok && ta.X == sub.Params[0] && cnd.Index == 1 {
+					if ta, ok := cnd.Tuple.(*ssa.TypeAssert); ok && ta.X == sub.Params[ci] && cnd.Index == 1 {
 						tn := typeStr(ta.AssertedType)
 						if outcome && (strings.HasSuffix(tn, "RawYAMLObject") || strings.HasSuffix(tn, "RawYAMLArray")) {
 							known = true // the candidate is a mapping or a sequence
@@ -159,7 +160,7 @@ func runC19Expr(c *Ctx) {
 						if ld, ok := cnd.Call.Args[0].(*ssa.UnOp); ok {
 							if fa, ok := ld.X.(*ssa.FieldAddr); ok {
 								if ex, ok := fa.X.(*ssa.Extract); ok {
-									if ta, ok := ex.Tuple.(*ssa.TypeAssert); ok && ta.X == sub.Params[0] {
+									if ta, ok := ex.Tuple.(*ssa.TypeAssert); ok && ta.X == sub.Params[ci] {
 										known = true
 									}
 								}
@@ -173,7 +174,7 @@ func runC19Expr(c *Ctx) {
 				allFalse := 0
 				for ifi, outcome := range conds {
 					if ex, ok := ifi.Cond.(*ssa.Extract); ok {
-						if ta, ok := ex.Tuple.(*ssa.TypeAssert); ok && ta.X == sub.Params[0] && !outcome {
+						if ta, ok := ex.Tuple.(*ssa.TypeAssert); ok && ta.X == sub.Params[ci] && !outcome {
 							allFalse++
 						}
 					}
@@ -1077,9 +1078,10 @@ func runC19Cand(c *Ctx) {
 	for _, call := range findCalls(fn, "isYAMLValueSubset") {
 		nSub++
 		a := call.Common().Args
-		f1, _ := fieldLoad(a[1])
+		ci, fi := subsetParamRoles(p.Func("isYAMLValueSubset"))
+		f1, _ := fieldLoad(a[fi])
 		fromRow := false
-		if ld, ok := a[0].(*ssa.UnOp); ok {
+		if ld, ok := a[ci].(*ssa.UnOp); ok {
 			if ia, ok := ld.X.(*ssa.IndexAddr); ok {
 				if ex, ok := ia.X.(*ssa.Extract); ok {
 					if lk, ok := ex.Tuple.(*ssa.Lookup); ok && lk.X == rows {
@@ -1145,4 +1147,26 @@ func isCountedLoopCond(b *ssa.BasicBlock, cnd *ssa.BinOp) bool {
 	}
 	bi, ok := call.Call.Value.(*ssa.Builtin)
 	return ok && bi.Name() == "len"
+}
+
+// subsetParamRoles: which parameter of isYAMLValueSubset is the candidate value and which the filter (the exclude value):
+// the filter is the one the function tests first for being a string that contains an expression. Found by that use, so
+// that swapping the parameters does not confuse the rules.
+func subsetParamRoles(sub *ssa.Function) (cand, filter int) {
+	cand, filter = 0, 1
+	if sub == nil || len(sub.Params) != 2 || len(sub.Blocks) == 0 {
+		return
+	}
+	if ifi, ok := sub.Blocks[0].Instrs[len(sub.Blocks[0].Instrs)-1].(*ssa.If); ok {
+		if ex, ok := ifi.Cond.(*ssa.Extract); ok {
+			if ta, ok := ex.Tuple.(*ssa.TypeAssert); ok {
+				for i, q := range sub.Params {
+					if ta.X == ssa.Value(q) {
+						filter, cand = i, 1-i
+					}
+				}
+			}
+		}
+	}
+	return
 }
